@@ -167,21 +167,26 @@ def vo(x, f):
     return vL([]) if x is None else vL([f(x)])
 
 
+class IllTyped(Exception):
+    """the implementation built an object whose field holds a value of another Python type than declared:
+    outside the typed model (ASSUMPTIONS); the case is skipped and counted, never judged"""
+
+
 def _str(x):
     if not isinstance(x, str):
-        raise TypeError(f"expected str, got {type(x).__name__}")
+        raise IllTyped(f"expected str, got {type(x).__name__}")
     return vB(x)
 
 
 def _int(x):
     if isinstance(x, bool) or not isinstance(x, int):
-        raise TypeError(f"expected int, got {type(x).__name__}")
+        raise IllTyped(f"expected int, got {type(x).__name__}")
     return vN(x)
 
 
 def _bool(x):
     if not isinstance(x, bool):
-        raise TypeError(f"expected bool, got {type(x).__name__}")
+        raise IllTyped(f"expected bool, got {type(x).__name__}")
     return vbool(x)
 
 
@@ -681,6 +686,15 @@ def run_listing(ctx, case):
                              f"as_list(with_meta=True) raised {exc!r} on a well-formed tree"))
         return inp, vL([err(exc), err(exc)]), problems, wf, False
     raw = json.loads(t.as_bytes(with_meta=True).decode("utf-8"))
+    if not hn:
+        # without a hash name from_list reads the hash with HashInfo.from_dict(entry): a single remaining item
+        # whose value is not a string makes an ill-typed HashInfo (silently), before any later entry can raise
+        for ent in lst:
+            rest = [v for k, v in ent.items() if k != "relpath"]
+            if len(rest) >= 2:
+                break  # ValueError here, in the implementation and in the model
+            if len(rest) == 1 and rest[0] is not None and not isinstance(rest[0], str):
+                raise IllTyped("HashInfo value of a non-string type")
     try:
         t2 = Tree.from_list(raw, hash_name=hn)
         after = list(t2)
@@ -907,6 +921,9 @@ def run(ctx):
         for case in cases:
             try:
                 inp, exp, problems, nontrivial = run_one(ctx, case)
+            except IllTyped:
+                ctx.count("skipped:ill-typed object (outside the typed model)")
+                continue
             except Exception as exc:  # noqa: BLE001
                 # the real code raised where no exception is part of the behaviour
                 sig = f"C20:{f}:unexpected-exception:{type(exc).__name__}"
